@@ -3013,11 +3013,11 @@ avx_rule_convssslw_avx2 (OrcCompiler *p, void *user, OrcInstruction *insn)
   const int size = p->vars[insn->src_args[0]].size << p->loop_shift;
 
   if (size >= 32) {
-    orc_avx_emit_packssdw (p, dest, src, dest);
+    orc_avx_emit_packssdw (p, src, src, dest);
     // full interleave required again
     orc_avx_emit_permute4x64_imm (p, ORC_AVX_SSE_SHUF(3, 1, 2, 0), dest, dest);
   } else {
-    orc_avx_emit_packssdw (p, dest, src, dest);
+    orc_avx_emit_packssdw (p, src, src, dest);
   }
 }
 
@@ -3030,11 +3030,11 @@ avx_rule_convsuslw_avx2 (OrcCompiler *p, void *user, OrcInstruction *insn)
   const int size = p->vars[insn->src_args[0]].size << p->loop_shift;
 
   if (size >= 32) {
-    orc_avx_emit_packusdw (p, dest, src, dest);
+    orc_avx_emit_packusdw (p, src, src, dest);
     // full interleave required again
     orc_avx_emit_permute4x64_imm (p, ORC_AVX_SSE_SHUF(3, 1, 2, 0), dest, dest);
   } else {
-    orc_avx_sse_emit_packusdw (p, dest, src, dest);
+    orc_avx_sse_emit_packusdw (p, src, src, dest);
   }
 }
 
